@@ -200,9 +200,21 @@ pub fn Transition(props: SuspenseProps) -> View {
         // TODO: Workaround for https://github.com/sycamore-rs/sycamore/issues/718.
         let mut set_is_loading = set_is_loading;
 
+        // The suspense scope created by the surrounding `Suspense`.
+        let outer = try_use_context::<sycamore_futures::SuspenseScope>();
         // We create a detached suspense scope here to not create a deadlock with the outer
         // suspense.
         let (children, scope) = create_detached_suspense_scope(move || children.call());
+        // In streaming mode, a suspense nested under this transition waits until its parent scope
+        // has been sent. The detached scope is never streamed by itself: it counts as sent as soon
+        // as the surrounding `Suspense` is.
+        if let Some(outer) = outer {
+            create_effect(move || {
+                if outer.sent.get() {
+                    scope.sent.set(true);
+                }
+            });
+        }
         // Trigger the outer suspense scope. Note that this is only triggered on the initial render
         // and future renders will be captured by the inner suspense scope.
         create_suspense_task(scope.until_finished());
